@@ -321,6 +321,7 @@ class Splicer:
         self.fns: Dict[str, FnInfo] = {}
         self.items_copied: List[str] = []
         self.log: List[str] = []
+        self.assoc: Dict[str, str] = {}
 
     # ---- emit helpers
     def emit(self, text: str, **meta):
@@ -355,11 +356,46 @@ class Splicer:
         self.log.append("item %s copied (%s:%d); attributes dropped: %s; added: %s" %
                         (key, sf.path, line0, dropped, attrs or "none"))
 
-    def do_impl_open(self, key: str):
+    def do_impl_open(self, key: str, kv=None):
         sf, it, parent = self.lookup(key)
         if parent is None:
             raise SpliceError("impl_open: %s has no enclosing impl" % key)
         hdr = sf.src[parent.start:parent.head_end].rstrip()
+        self.assoc = {}
+        if kv and kv.get("inherent") == "1":
+            # R15: `impl<G> Trait for Type where ..` -> `impl<G> Type where ..`; `Self::Assoc` in the methods is replaced by the
+            # right-hand side of the impl's `type Assoc = ..;` (the trait linkage is dropped, the method bodies are verbatim)
+            ht = tokenize(hdr)
+            k = 1
+            if ht[k].text == "<":
+                d = 0
+                while True:
+                    if ht[k].text == "<":
+                        d += 1
+                    elif ht[k].text == ">":
+                        d -= 1
+                    elif ht[k].text == ">>":
+                        d -= 2
+                    k += 1
+                    if d == 0:
+                        break
+            d = 0
+            f = None
+            for j in range(k, len(ht)):
+                if ht[j].text == "<":
+                    d += 1
+                elif ht[j].text == ">":
+                    d -= 1
+                elif ht[j].kind == "ident" and ht[j].text == "for" and d == 0:
+                    f = j
+                    break
+            if f is None:
+                raise SpliceError("impl_open inherent=1: %s is not a trait impl" % key)
+            hdr = hdr[:ht[k].start] + hdr[ht[f + 1].start:]
+            body = sf.src[parent.head_end:parent.end]
+            for m in re.finditer(r"\btype\s+(\w+)\s*=\s*([^;]+);", body):
+                self.assoc[m.group(1)] = m.group(2).strip()
+            self.log.append("impl of %s: R15 trait linkage dropped, Self::{%s} substituted" % (key, ",".join(self.assoc)))
         if self.defaults.get("vis") == "strip":
             hdr = re.sub(r"^pub(\([a-z]+\))?\s+", "", hdr, count=1)
         line0 = sf.line_of(parent.start)
@@ -419,6 +455,10 @@ class Splicer:
             edits.append((toks[0].start, toks[0].start, "pub ", "A5-vis", {}))
         name_tok = toks[fn_tok + 1]
         info.gen_name = name_tok.text
+        # R15: Self::Assoc -> the impl's associated type (only after `//@impl_open .. inherent=1`)
+        for i in range(len(toks) - 2):
+            if toks[i].text == "Self" and toks[i + 1].text == "::" and toks[i + 2].text in getattr(self, "assoc", {}):
+                edits.append((toks[i].start, toks[i + 2].end, self.assoc[toks[i + 2].text], "R15", {}))
         # A1: named return
         ret = kv.get("ret")
         arrow = None
@@ -788,7 +828,8 @@ class Splicer:
                     self.defaults.update(parse_kv(s[len("//@default "):]))
                     i += 1
                 elif s.startswith("//@impl_open "):
-                    self.do_impl_open(split_key(s[len("//@impl_open "):])[0])
+                    key, kvs = split_key(s[len("//@impl_open "):])
+                    self.do_impl_open(key, parse_kv(kvs))
                     i += 1
                 elif s.startswith("//@fn ") or s.startswith("//@sig "):
                     decl = s.startswith("//@sig ")
